@@ -31,8 +31,10 @@ def shards(tier, seed):
 	# values that collide when truncated to 16 / 32 bits
 	universes.append([3, 65536 + 3, 5, 65536 + 5, 2 ** 17 + 3, 2 ** 31 - 1])
 	universes.append([3, 2 ** 32 + 3, 5, 2 ** 32 + 5, 2 ** 33 + 3, 2 ** 63 - 1])
+	# 64-bit values on both sides of 2^63 (k = 32 k-mers starting with A/C and with G/T), pairs exactly 2^63 apart, the largest index
+	universes.append([5, 7, 2 ** 63 - 1, 2 ** 63, 2 ** 63 + 7, 2 ** 64 - 1])
 	for ui, U in enumerate(universes):
-		widths = WIDTHS if max(U) < 65536 else (['u4', 'u8', 'i8'] if max(U) < 2 ** 32 else ['u8', 'i8'])
+		widths = WIDTHS if max(U) < 65536 else (['u4', 'u8', 'i8'] if max(U) < 2 ** 32 else (['u8', 'i8'] if max(U) < 2 ** 63 else ['u8']))
 		out.append(dict(name=f'exh-U{ui}', kind='exh', U=U, widths=widths))
 	# mixed widths where the wider signature holds values the narrower type cannot represent (value + 2^16 / 2^32 "twins")
 	out.append(dict(name='mixed-16', kind='mixed', low=[0, 1, 5, 65535], shift=65536, narrow=['u2', 'i4' if False else 'u2'], wide=['u4', 'u8', 'i4', 'i8']))
